@@ -16,6 +16,7 @@ type ask struct {
 	respBuf []byte
 	n       int
 	errCode uint8
+	tooLong bool
 }
 
 func (a *ask) await(ctx context.Context) error {
@@ -31,6 +32,7 @@ func (a *ask) await(ctx context.Context) error {
 func (a *ask) complete(resp []byte, errCode uint8) {
 	a.once.Do(func() {
 		a.errCode = errCode
+		a.tooLong = len(resp) > len(a.respBuf)
 		a.n = copy(a.respBuf, resp)
 		close(a.done)
 	})
